@@ -69,6 +69,8 @@ def run_history(case):
     steps = []
     with cli.scratch("rv-c09-") as root:
         tree = {f["name"]: G.file_bytes(f)}
+        if f.get("sib") is not None:
+            tree[f["name"] + ".license"] = f["sib"].encode("utf-8")
         for name in {s.get("tmpl", "default") for s in case["ops"]} - {"default"}:
             fn, text = G.TEMPLATES[name]
             tree[".reuse/templates/" + fn] = text
@@ -363,6 +365,183 @@ class HistoryStream(Stream):
         return case
 
 
+class GrownHistoryStream(HistoryStream):
+    """Histories the random walk of `history` hardly ever takes: (a) steps that request contributors and nothing else, first or
+    in the middle, on commentable files and on FILE.license (binary files, uncommentable and unrecognised types,
+    --force-dot-license / --fallback-dot-license); (b) --merge-copyrights on a header written by hand."""
+    name = "history2"
+    rule = ("histories of 2-5 real `reuse annotate` invocations, judged after every step like `history` and, in addition, against the "
+            "generator's ground truth without the tool's reader: (a) contributor histories — at least one step whose only information "
+            "option is --contributor (first, in the middle or last; twice in a row; under --no-replace / --multi-line / --style at a low "
+            "rate) among copyright-only, licence-only and full steps, on commentable files of every table style, binary files, files of "
+            "uncommentable and of unrecognised types, with no .license option, --force-dot-license or --fallback-dot-license, starting "
+            "empty, with code, or with an existing FILE.license (empty / contributors only / full): every contributor requested by a "
+            "successful step under a template that renders contributors stands in the file lint reads after every later such step; "
+            "(b) merge histories — the file (8 comment styles) or its FILE.license starts with a header written by hand: 1-4 notices of "
+            "1-2 holders under any prefix with years 2009-2014 / 2009 -2014 / 2009- 2014 / 2009 - 2014 / single / trailing comma / none, "
+            "then 0-2 runs without and 1-2 runs with --merge-copyrights requesting a new year, a line already present character for "
+            "character, another holder, only a licence or only a contributor: every year ever stated for a holder lies within the span of "
+            "a line naming the holder.  The Lean model runs alongside as in `history`.  non-trivial = distinct (family, style, shape)")
+
+    MERGE_STYLES = ["PythonCommentStyle", "CCommentStyle", "CppCommentStyle", "HtmlCommentStyle", "LispCommentStyle", "TexCommentStyle",
+                    "HaskellCommentStyle", "JinjaCommentStyle"]
+
+    # ---- (a)
+    def _contributor_history(self, rng, by_style, styles, k, shorthands):
+        r = rng.random()
+        style = styles[k % len(styles)]
+        kind, key, _ = rng.choice(by_style[style])
+        dot = rng.choice([None, None, "force", "fallback"])
+        if r < 0.45:
+            body = rng.choice(["", "x = 1\n", "#!/bin/sh\nx = 1\n", "x = 1\r\ny = 2\r\n"])
+            f = {"name": G.name_for(kind, key), "body": body, "entry": [kind, key, style], "kind": "table"}
+        elif r < 0.7:
+            f = {"name": G.name_for(kind, key), "hex": rng.choice(G.BINARY_BODIES).hex(), "entry": [kind, key, style], "kind": "binary"}
+        elif r < 0.85:
+            kind, key, style = rng.choice(by_style["UncommentableCommentStyle"])
+            f = {"name": G.name_for(kind, key), "body": "payload\n", "entry": [kind, key, style], "kind": "table"}
+        else:
+            f = {"name": rng.choice(G.UNRECOGNISED), "body": "payload\n", "kind": "unrecognised"}
+            dot = "fallback"
+        if rng.random() < 0.25:
+            f["sib"] = rng.choice(["", "SPDX-FileContributor: Sibling Hand\n", "SPDX-FileContributor: Sibling Hand\nSPDX-FileContributor: Other Hand\n",
+                                   "SPDX-FileCopyrightText: 2001 Sibling Holder\nSPDX-FileContributor: Sibling Hand\n\nSPDX-License-Identifier: Zlib\n"])
+        shapes = ["N", "N", "N", "C", "L", "F", "F"]
+        n = rng.randint(2, 4)
+        seq = [rng.choice(shapes) for _ in range(n)]
+        seq[rng.choice([0, 0, 0, rng.randrange(n)])] = "N"
+        ops = []
+        for sh in seq:
+            o = {"prefix": rng.choice(G.PREFIXES), "year": rng.choice([None, "exclude", ["2019"], ["2015", "2021"]]), "dot": dot,
+                 "tmpl": rng.choice(["default"] * 8 + ["adds-text", "no-contributors"] + (["commented"] if f["kind"] == "table" else [])),
+                 "merge": rng.random() < 0.1, "no_replace": rng.random() < 0.08}
+            if rng.random() < 0.1:
+                o["line"] = "multi"
+            if rng.random() < 0.08:
+                o["style"] = rng.choice(shorthands)
+            cpr = rng.sample(G.HOLDERS, rng.choice([1, 1, 2])) if sh in "CF" else []
+            lic = rng.sample(G.LICENSES, rng.choice([1, 1, 2])) if sh in "LF" else []
+            con = rng.sample(G.CONTRIBUTORS, rng.choice([1, 1, 2])) if sh in "NF" else []
+            ops.append(dict(o, cpr=cpr, lic=lic, con=con))
+        return {"family": "contributor", "file": f, "ops": ops}
+
+    # ---- (b)
+    def _merge_history(self, rng, by_style, k):
+        sname = self.MERGE_STYLES[k % len(self.MERGE_STYLES)]
+        st = annotcorr.style_by_name(sname)
+        kind, key, _ = rng.choice(by_style[sname])
+        holders = rng.sample(G.PLAIN_HOLDERS, rng.choice([1, 1, 2]))
+        truth = G.hand_notices(rng, holders)
+        lic_old = rng.choice([[], ["MIT"], ["ISC", "MIT"]])
+        hdr = "\n".join([G.notice_line(*t) for t in truth] + ([""] if lic_old else []) + ["SPDX-License-Identifier: " + l for l in lic_old])
+        in_sibling = rng.random() < 0.3
+        if in_sibling:
+            f = {"name": G.name_for(kind, key), "body": "x = 1\n", "entry": [kind, key, sname], "kind": "table", "sib": hdr + "\n"}
+        else:
+            block = st.create_comment(hdr, force_multi=rng.random() < 0.3 and st.can_handle_multi())
+            first = (st.SHEBANGS[0] + " first line\n") if (st.SHEBANGS and rng.random() < 0.25) else ""
+            body = first + block + "\n" + rng.choice(["", "\nx = 1\n", "\nx = 1\n\ny = 2"])
+            le = rng.choice(["\n", "\n", "\n", "\r\n", "\r"])
+            f = {"name": G.name_for(kind, key), "body": body.replace("\n", le), "entry": [kind, key, sname], "kind": "table"}
+        said = [list(t) for t in truth]            # notices stated so far (hand-written ones and those of earlier steps)
+        main = truth[0][2]
+        ops = []
+        plan = [False] * rng.choice([0, 0, 1, 2]) + [True] + [rng.random() < 0.5] * rng.choice([0, 0, 1])
+        for merge in plan:
+            mode = rng.choice(["new-year", "new-year", "same-line", "licence-only", "contributor-only", "other-holder"]) if merge else "new-year"
+            o = {"tmpl": "default", "merge": merge, "dot": None, "cpr": [], "lic": [], "con": [], "prefix": None, "year": "exclude"}
+            if mode == "new-year":
+                o.update(cpr=[main], prefix=rng.choice([t[0] for t in said if t[2] == main] + [rng.choice(list(G.PREFIX_TEXT))]),
+                         year=rng.choice([["2021"], ["1990"], ["2011"], ["2020", "2023"]]))
+            elif mode == "same-line":
+                again = [t for t in said if G.year_option(t[1]) is not False]
+                if again:
+                    t = rng.choice(again)
+                    o.update(cpr=[t[2]], prefix=t[0], year=G.year_option(t[1]))
+                else:
+                    o.update(lic=["MIT"])
+            elif mode == "other-holder":
+                o.update(cpr=[rng.choice([h for h in G.PLAIN_HOLDERS if h not in holders])], prefix=rng.choice(G.PREFIXES), year=rng.choice([["2021"], "exclude"]))
+            elif mode == "licence-only":
+                o.update(lic=[rng.choice(["Apache-2.0", "MIT"])])
+            else:
+                o.update(con=[rng.choice(G.CONTRIBUTORS)])
+            if o["cpr"] and rng.random() < 0.3:
+                o["lic"] = ["0BSD"]
+            for h in o["cpr"]:
+                said.append([o["prefix"] or "spdx", G.year_text(o["year"]), h])
+            ops.append(o)
+        return {"family": "merge", "file": f, "ops": ops, "truth": truth}
+
+    def cases(self, tier, rng):
+        from reuse import comment
+        shorthands = list(comment.NAME_STYLE_MAP)
+        by_style = {}
+        for e in G.table_entries():
+            by_style.setdefault(e[2], []).append(e)
+        styles = sorted(s for s in by_style if s != "UncommentableCommentStyle")
+        for k in range(320 if tier == "thorough" else 26):
+            yield self._contributor_history(rng, by_style, styles, k, shorthands)
+        for k in range(240 if tier == "thorough" else 20):
+            yield self._merge_history(rng, by_style, k)
+
+    # ---- the ground truth, without the tool's reader
+    def judge_truth(self, case, steps):
+        stated = {}
+        for p, y, h in case.get("truth", []):
+            stated.setdefault(h, []).extend(G.years_of(y))
+        cons = set()
+        for i, (step, st) in enumerate(zip(case["ops"], steps)):
+            rec = st["rec"]
+            text = st["text_after"]
+            if rec["rc"] != 0 or rec["exc"] or text is None:
+                continue
+            wrote = bool(rec["changed"])
+            renders = step.get("tmpl", "default") in G.RENDERS_CONTRIBUTORS
+            if st["target_after"] != st["target"]:
+                # this step made lint read another place (a fresh FILE.license): what the old place holds is not lost from a
+                # file, the place changed (see the assumptions); the ground truth starts again with this step
+                stated, cons = {}, set()
+            if wrote or not step.get("skip_existing"):
+                if case.get("family") == "merge":
+                    for h in step.get("cpr", []):
+                        stated.setdefault(h, []).extend(G.years_of(G.year_text(step.get("year"))))
+                if renders:
+                    cons |= set(step.get("con", []))
+            if case.get("family") == "merge":
+                why = G.uncovered_years(text, stated)
+                if why is not None:
+                    return i, "years-not-covered: after step %d (%s--merge-copyrights) %s" % (i + 1, "" if step.get("merge") else "no ", why)
+            if renders or not wrote:
+                gone = sorted(c for c in cons if ("SPDX-FileContributor: " + c) not in text)
+                if gone:
+                    return i, "contributor-gone: after step %d the file lint reads (%s) no longer holds %r, requested by an earlier successful step" % (
+                        i + 1, st["target_after"], gone)
+            else:
+                cons = {c for c in cons if ("SPDX-FileContributor: " + c) in text}      # a template without contributors may drop them
+        return None
+
+    def oracle(self, case, impl_out):
+        why = HistoryStream.oracle(self, case, impl_out)
+        if why is not None or impl_out.startswith("EXC"):
+            return why
+        steps = getattr(self, "_steps", {}).get(json.dumps(case, sort_keys=True)) or run_history(case)
+        bad = self.judge_truth(case, steps)
+        if bad is None:
+            return None
+        i, why = bad
+        case["ops"] = case["ops"][: i + 1]
+        return why
+
+    def nontrivial(self, case, impl_out):
+        if impl_out.startswith("EXC"):
+            return None
+        outs = json.loads(impl_out)
+        shape = tuple("".join(x for x, v in (("C", s.get("cpr")), ("L", s.get("lic")), ("N", s.get("con"))) if v) + ("m" if s.get("merge") else "") for s in case["ops"])
+        return (case.get("family"), case["file"].get("entry", ["", "", ""])[2], case["file"]["kind"], case["file"].get("sib") is not None, shape,
+                tuple((o["rc"], bool(o["changed"])) for o in outs))
+
+
 class AnnotateMonotoneStream(annotcorr.AnnotateStream):
     """add_header_to_file vs the model (annotcorr), judged by the step invariant on raw extraction:
     what the old text declared and what was requested is declared by the new text."""
@@ -393,7 +572,7 @@ class AnnotateMonotoneStream(annotcorr.AnnotateStream):
 
 PROPERTY = Property(
     pid="C09",
-    streams=[AnnotateMonotoneStream(), HistoryStream()],
+    streams=[AnnotateMonotoneStream(), HistoryStream(), GrownHistoryStream()],
     assumptions=[
         "Jinja2 is outside the model: the template is an arbitrary function in the theorems; in the correspondence the model receives "
         "the text real Jinja rendered for the information the model computed",
